@@ -433,7 +433,8 @@ class HistogramND(HistogramBase):
         )
         self._frequencies += frequencies
         self._errors2 += errors2 if errors2 is not None else frequencies
-        self._missed[0] += missed
+        if self.keep_missed:
+            self._missed[0] += missed
 
     def _get_projection_axes(
         self, *axes: Axis
